@@ -10,7 +10,7 @@ import vlib
 from vlib import Inconclusive
 
 ALL_INVARIANTS = ["ReadExact", "CloseNoTrunc", "NoSpuriousEOF", "Decodable", "AckSound", "RetxSame",
-                  "SeqDense", "TxContiguous", "FitsMTU", "FitsFields", "PadOK", "Completes", "Attributed", "OnTime"]
+                  "SeqDense", "TxContiguous", "FitsMTU", "FitsFields", "PadOK", "Completes", "Attributed", "OnTime", "NonceOK", "LEOK"]
 
 
 def run_scenarios(scenarios, workdir, name, timeout=1500, race=False):
